@@ -300,17 +300,21 @@ Definition rank (cids : list N) (g : gstate) : nat :=
 Lemma pipe_rank_app a b : pipe_rank (a ++ b) = (pipe_rank a + pipe_rank b)%nat.
 Proof. unfold pipe_rank. now rewrite map_app, list_sum_app. Qed.
 
+Lemma pipe_rank_cons x p : pipe_rank (x :: p) = (stage_rank x + pipe_rank p)%nat.
+Proof. reflexivity. Qed.
+
 Lemma pop_batch_rank n p :
   (1 <= n)%nat -> existsb (is_stage Queued) p = true -> (pipe_rank (pop_batch n p) < pipe_rank p)%nat.
 Proof.
   intros Hn. assert (Hle : forall m q, (pipe_rank (pop_batch m q) <= pipe_rank q)%nat).
-  { intros m q; revert m; induction q as [|[r s] q IH]; intros m; destruct m; cbn; try lia.
-    pose proof (IH m) as I1. pose proof (IH (S m)) as I2. destruct s; unfold pipe_rank in *; cbn in *; lia. }
+  { intros m q; revert m; induction q as [|[r s] q IH]; intros m; destruct m; cbn [pop_batch]; try lia.
+    pose proof (IH m) as I1. pose proof (IH (S m)) as I2.
+    destruct s; unfold pipe_rank, list_sum in *; cbn [map fold_right stage_rank snd] in *; lia. }
   revert n Hn; induction p as [|[r s] p IH]; intros n Hn He; [discriminate|].
   destruct n as [|n]; [lia|]. cbn [pop_batch]. destruct s.
-  - unfold pipe_rank. cbn. specialize (Hle n p). unfold pipe_rank in Hle. lia.
-  - cbn in He. specialize (IH (S n) Hn He). unfold pipe_rank in *. cbn. lia.
-  - cbn in He. specialize (IH (S n) Hn He). unfold pipe_rank in *. cbn. lia.
+  - specialize (Hle n p). unfold pipe_rank, list_sum in *. cbn [map fold_right stage_rank snd]. lia.
+  - cbn in He. specialize (IH (S n) Hn He). unfold pipe_rank, list_sum in *. cbn [map fold_right stage_rank snd]. lia.
+  - cbn in He. specialize (IH (S n) Hn He). unfold pipe_rank, list_sum in *. cbn [map fold_right stage_rank snd]. lia.
 Qed.
 
 Lemma sum_ranks_ext cl cl' cids :
@@ -322,7 +326,7 @@ Lemma sum_ranks_update cl t c' cids :
   (sum_ranks (set_client cl t c') cids < sum_ranks cl cids)%nat.
 Proof.
   intros Hnd Hin Hlt. induction cids as [|x cids IH]; [contradiction|].
-  inversion Hnd as [|x0 l0 Hx Hnd']; subst. unfold sum_ranks in *. cbn [map list_sum].
+  inversion Hnd as [|x0 l0 Hx Hnd']; subst. unfold sum_ranks, list_sum in *. cbn [map fold_right].
   destruct Hin as [->|Hin].
   - rewrite set_client_pc_self.
     assert (E : map (fun t0 => client_rank (set_client cl t c' t0)) cids = map (fun t0 => client_rank (cl t0)) cids).
@@ -348,10 +352,10 @@ Proof.
   { unfold worker_step. destruct (g_wdone g) eqn:Ew; [discriminate|].
     destruct (split_stage Batched (g_pipe g)) as [[[a r] b]|] eqn:S1.
     { intro H; inversion H; subst; clear H. apply split_stage_spec in S1. unfold rank. cbn [tick g_clients g_pipe g_close g_wdone].
-      rewrite S1, Ew, !pipe_rank_app. unfold pipe_rank. cbn. lia. }
+      rewrite S1, Ew, !pipe_rank_app, !pipe_rank_cons. cbn [stage_rank snd]. lia. }
     destruct (split_stage Applied (g_pipe g)) as [[[a r] b]|] eqn:S2.
     { intro H; inversion H; subst; clear H. apply split_stage_spec in S2. unfold rank. cbn [tick g_clients g_pipe g_close g_wdone].
-      rewrite S2, Ew, !pipe_rank_app. unfold pipe_rank at 4. cbn [map list_sum stage_rank snd].
+      rewrite S2, Ew, !pipe_rank_app, !pipe_rank_cons. cbn [stage_rank snd].
       assert (E : sum_ranks (match c_pc (g_clients g (r_tid r)) with
                              | PWait o call => set_pc g (r_tid r) (c_prog (g_clients g (r_tid r))) (PLin o call ROk)
                              | _ => g_clients g end) cids = sum_ranks (g_clients g) cids).
@@ -442,10 +446,10 @@ Proof.
   intros Hb. change (tstep g 0) with (worker_step g). unfold worker_step. destruct (g_wdone g) eqn:Ew; [discriminate|].
   destruct (split_stage Batched (g_pipe g)) as [[[a r] b]|] eqn:S1.
   { intro H; inversion H; subst; clear H. apply split_stage_spec in S1. unfold rank. cbn [tick g_clients g_pipe g_close g_wdone].
-    rewrite S1, Ew, !pipe_rank_app. unfold pipe_rank. cbn. lia. }
+    rewrite S1, Ew, !pipe_rank_app, !pipe_rank_cons. cbn [stage_rank snd]. lia. }
   destruct (split_stage Applied (g_pipe g)) as [[[a r] b]|] eqn:S2.
   { intro H; inversion H; subst; clear H. apply split_stage_spec in S2. unfold rank. cbn [tick g_clients g_pipe g_close g_wdone].
-    rewrite S2, Ew, !pipe_rank_app. unfold pipe_rank at 4. cbn [map list_sum stage_rank snd].
+    rewrite S2, Ew, !pipe_rank_app, !pipe_rank_cons. cbn [stage_rank snd].
     assert (E : sum_ranks (match c_pc (g_clients g (r_tid r)) with
                            | PWait o call => set_pc g (r_tid r) (c_prog (g_clients g (r_tid r))) (PLin o call ROk)
                            | _ => g_clients g end) cids = sum_ranks (g_clients g) cids).
